@@ -43,7 +43,7 @@ class RemoveAnimationFilter:
   def process_element(self, element: ContentElement, recursive = True):
     """Removes animations from content elements"""
 
-    for step in element.iter_animation_steps():
+    for step in list(element.iter_animation_steps()):
       element.remove_animation_step(step)
       self._has_removed_animations = True
 
